@@ -33,6 +33,14 @@ impl TxOut {
         };
 
         // Script Pub Key
+        let remaining_bytes = (cursor.get_ref().len() as u64).saturating_sub(cursor.position());
+        if script_pub_key_size > remaining_bytes {
+            return Err(BSVErrors::DeserialiseTxOut(
+                "script_pub_key".to_string(),
+                std::io::Error::new(std::io::ErrorKind::UnexpectedEof, "script length exceeds the remaining bytes"),
+            ));
+        }
+
         let mut script_pub_key = vec![0; script_pub_key_size as usize];
         if let Err(e) = cursor.read(&mut script_pub_key) {
             return Err(BSVErrors::DeserialiseTxOut("script_pub_key".to_string(), e));
